@@ -1,4 +1,4 @@
-HOOK_COMMITS = []
+HOOK_COMMITS = ["5411e01"]
 NOTES = "See DESIGN.md. Exit codes: 0 held / 1 violation (VIOLATION line) / 2 machinery failure."
 NOT_APPLICABLE = {}
 CHECKS = {
@@ -7,5 +7,17 @@ CHECKS = {
         ref="5 C14",
         note="Trusted: TLC, the TLA+ value parser, the GFA writer in harness/props/c14.py. Bounded: <=2 nodes/<=2 links (quick), <=3 nodes/<=3 links (thorough), step lists <=3, alphabet ACGTN.",
         technique="TLC bounded enumeration of GfaStore states replayed into gaftools; results validated by TLC against RGFA.IsWalk/Spell",
+    ),
+    "C11": dict(
+        text="Realign.tla models the collector, its workers and the multiprocessing queue (buffer, feeder, bounded pipe); TLC checks exactly-once/in-order/termination over every interleaving for small R/B/C, and a transition tour over EVERY edge of TLC's state graph plus random walks is replayed in lock-step on the real realign_gaf under a deterministic scheduler (environment actions forced, parent calls observed). Seeded random schedules are recorded from the real code and validated by TLC (Check_Realign). Output is compared with a real single-core run.",
+        ref="5 C11, 4.4",
+        note="Trusted: the fake multiprocessing layer (harness/sched.py) whose semantics are the ones modelled; atomic liveness snapshots; small constants (R<=5, C<=3). Hook: GAFTOOLS_VERIF_BATCH_SIZE.",
+        technique="TLC model checking of Realign.tla; transition-tour replay into realign_gaf; TLC trace validation of recorded schedules",
+    ),
+    "C13": dict(
+        text="Same model with fault actions (WKill: buffer lost; WCrash: buffer flushed, exit 1) enabled at every point of a worker's batch; TLC checks 'finished => complete', 'abort only after a fault' and termination under fairness; every edge of the state graph is replayed in lock-step on the real code, random fault schedules are trace-validated by TLC, and a real-multiprocessing tier SIGKILLs real workers at chosen puts.",
+        ref="5 C13, 4.4",
+        note="Trusted: fake multiprocessing layer (cross-checked by the real SIGKILL tier); death mid-pipe-write is below the model's granularity; death after the sentinel was delivered only requires a complete output (DESIGN 7.3).",
+        technique="TLC model checking with fault actions; lock-step replay of fault schedules; TLC trace validation; real SIGKILL runs",
     ),
 }
